@@ -1,4 +1,4 @@
-// hook for train/speed_limit_train_sim.rs (child module: `use super::*;` reaches the file's private items)
+// hook for train/speed_limit_train_sim.rs
 #[cfg(nrel_altrios_verif)]
 mod native {
     #[allow(unused_imports)]
@@ -6,9 +6,25 @@ mod native {
     use crate::verif_hook::runner::*;
     use serde_json::{json, Value};
 
+    fn call(o: &mut SpeedLimitTrainSim, fname: &str, a: &[Value]) -> CallRes {
+        match fname {
+            "SpeedLimitTrainSim::set_save_interval" => { o.set_save_interval(a[0].as_u64().map(|x| x as usize)); Ok(Ok(Value::Null)) }
+            "SpeedLimitTrainSim::solve_step" => unit(o.solve_step()),
+            "SpeedLimitTrainSim::step" => unit(o.step()),
+            "SpeedLimitTrainSim::get_energy_fuel" => Ok(Ok(json!(o.get_energy_fuel(b(&a[0])).get::<si::joule>()))),
+            "SpeedLimitTrainSim::get_net_energy_res" => Ok(Ok(json!(o.get_net_energy_res(b(&a[0])).get::<si::joule>()))),
+            "SpeedLimitTrainSim::get_kilometers" => Ok(Ok(json!(o.get_kilometers(b(&a[0]))))),
+            "SpeedLimitTrainSim::get_megagram_kilometers" => Ok(Ok(json!(o.get_megagram_kilometers(b(&a[0]))))),
+            _ => Err(Unsup(format!("no runner entry for {fname}"))),
+        }
+    }
+
     impl FileEntry for SpeedLimitTrainSimTag {
-        fn call(_req: &Value) -> Value {
-            json!({"kind": "unsupported", "msg": "no entries yet"})
+        fn call(req: &Value) -> Value {
+            match req["recv_ty"].as_str().unwrap_or("") {
+                "SpeedLimitTrainSim" => run::<SpeedLimitTrainSim>(req, call),
+                t => json!({"kind": "unsupported", "msg": format!("no runner for {t}")}),
+            }
         }
     }
 }
